@@ -139,12 +139,34 @@ KINDS = {
 }
 
 
+def hinit_probe(method, backward):
+    """Automatic initial step with a max_step far larger than the interval and a slowly varying
+    solution (|f| << |y|): does hinit evaluate the right-hand side beyond xend?"""
+    import os
+    x0, xend = (1.0, 0.0) if backward else (0.0, 1.0)
+    os.environ["SCRIPT_PRE"] = "1e-4"
+    try:
+        st, pre = STAGES[method]
+        d = replay.probe(["script", method, repr(x0), repr(xend), "none", "1e9", 100000, "A", "C", st, 2], timeout=20)
+    finally:
+        os.environ.pop("SCRIPT_PRE", None)
+    return d, (x0, xend, None, 1e9, 100000, "A", "C")
+
+
 def confirm(method, backward, failed, kind):
     if method not in STAGES:
         return None, "", "scripted replay is available for the explicit methods only"
     want = KINDS.get(kind, (kind,))
     log = []
     n = 0
+    if kind == "prefix" and method != "RK4":
+        try:
+            d, cfg = hinit_probe(method, backward)
+            for k, desc in judge(method, cfg, d):
+                if k in want:
+                    return True, f"SCRIPT_PRE=1e-4 probe script {method} {cfg[0]} {cfg[1]} none 1e9 100000 A C  (automatic initial step, max_step >> interval)", f"native violation [{k}] {desc}"
+        except Exception as e:
+            log.append(f"hinit probe failed: {str(e)[:100]}")
     budgets = (100000,) if kind != "budget" else (1, 2, 3)
     for (x0, xend, h0, ms) in battery(method, backward):
         for pat in PATTERNS:
